@@ -93,6 +93,24 @@ func leafString() *codec[pk.String] {
 	return c
 }
 
+// leafStringMaxChars: the protocol bounds a String by 32767 CHARACTERS (UTF-16 code units), not bytes:
+// a value at that bound whose characters need 2, 3 or 4 bytes of UTF-8 is in the protocol domain and
+// has a byte length far above 32767 (up to 3 bytes per code unit). A separate shape, so that the
+// alphabet indexes of "String" (used under every combinator and in the scan part) stay as they were.
+func leafStringMaxChars() *codec[pk.String] {
+	vals := []pk.String{
+		pk.String(strings.Repeat("x", 32766)),     // 32766 units, 32766 bytes
+		pk.String(strings.Repeat("é", 16384)),     // 16384 units, 32768 bytes: first byte length above 32767
+		pk.String(strings.Repeat("é", 32767)),     // 32767 units, 65534 bytes
+		pk.String(strings.Repeat("日", 32767)),     // 32767 units, 98301 bytes: the longest encoding in the domain
+		pk.String(strings.Repeat("😀", 16383) + "a"), // 32767 units (surrogate pairs), 65533 bytes
+	}
+	c := leaf("String(32767 characters)", vals, func(b []byte, v pk.String) []byte { return refwire.AppendString(b, string(v)) })
+	c.kind = "String"
+	c.show = func(v pk.String) string { return showStr(string(v)) }
+	return c
+}
+
 func leafIdentifier() *codec[pk.Identifier] {
 	vals := []pk.Identifier{"minecraft:stone", "a:b", "minecraft:" + pk.Identifier(strings.Repeat("k", 118)), "x"}
 	c := leaf("Identifier", vals, func(b []byte, v pk.Identifier) []byte { return refwire.AppendString(b, string(v)) })
@@ -203,6 +221,10 @@ func byteSlicePriors[T ~[]byte]() (int, func(i int) (T, string)) {
 		{"spare-capacity-empty", func() T { return T(stale(200)[:0]) }},
 		{"spare-capacity-short", func() T { return T(stale(200)[:1]) }},
 		{"longer-exact-capacity", func() T { return T(stale(300)) }},
+		// spare capacity smaller than some alphabet values: len < cap < length of the value
+		{"spare-capacity-below-value", func() T { return T(stale(2)[:0]) }},
+		{"spare-capacity-below-value", func() T { return T(stale(3)[:1]) }},
+		{"spare-capacity-below-value", func() T { return T(stale(127)[:100]) }},
 	}
 	return len(ps), func(i int) (T, string) { return ps[i].mk(), ps[i].name }
 }
@@ -284,6 +306,9 @@ func leafBitSet() *codec[pk.BitSet] {
 		{"spare-capacity-empty", func() pk.BitSet { return stale(200)[:0] }},
 		{"spare-capacity-short", func() pk.BitSet { return stale(200)[:1] }},
 		{"longer-exact-capacity", func() pk.BitSet { return stale(300) }},
+		{"spare-capacity-below-value", func() pk.BitSet { return stale(2)[:0] }},
+		{"spare-capacity-below-value", func() pk.BitSet { return stale(3)[:1] }},
+		{"spare-capacity-below-value", func() pk.BitSet { return stale(127)[:100] }},
 	}
 	return &codec[pk.BitSet]{
 		name: "BitSet", kind: "BitSet", n: len(sliceLens),
